@@ -5123,7 +5123,8 @@ impl<K: Introspect + Eq + Hash, V: Introspect, S: ::std::hash::BuildHasher> Intr
         }
     }
     fn introspect_len(&self) -> usize {
-        self.len()
+        // Each entry has two children: its key and its value
+        self.len() * 2
     }
 }
 
@@ -5147,7 +5148,8 @@ impl<K: Introspect + Eq + Hash, V: Introspect, S: ::std::hash::BuildHasher> Intr
         }
     }
     default fn introspect_len(&self) -> usize {
-        self.len()
+        // Each entry has two children: its key and its value
+        self.len() * 2
     }
 }
 
@@ -5231,7 +5233,8 @@ impl<K: Introspect, V: Introspect> Introspect for BTreeMap<K, V> {
         }
     }
     fn introspect_len(&self) -> usize {
-        self.len()
+        // Each entry has two children: its key and its value
+        self.len() * 2
     }
 }
 
@@ -5442,7 +5445,8 @@ impl<K: Introspect + Eq + Hash, V: Introspect, S: ::std::hash::BuildHasher> Intr
     }
 
     fn introspect_len(&self) -> usize {
-        self.len()
+        // Each entry has two children: its key and its value
+        self.len() * 2
     }
 }
 
@@ -5471,7 +5475,8 @@ impl<K: Introspect + Eq + Hash, V: Introspect, S: ::std::hash::BuildHasher> Intr
     }
 
     default fn introspect_len(&self) -> usize {
-        self.len()
+        // Each entry has two children: its key and its value
+        self.len() * 2
     }
 }
 
